@@ -3,8 +3,11 @@ package props
 import (
 	"fmt"
 	"go/ast"
+	"go/constant"
 	"go/token"
 	"go/types"
+	"reflect"
+	"strconv"
 	"strings"
 
 	"bifrostverify/an"
@@ -320,6 +323,7 @@ func sizeVTSanity(c *an.Check, pkgs func(path string) bool) {
 //   - SizeVT never sizes a varint from its running total (sizeVTSanity).
 func pbCodecSanity(c *an.Check, pkgs func(rel string) bool) {
 	sizeVTSanity(c, pkgs)
+	pbTagAgreement(c, pkgs)
 	p := c.P
 	// (a) no aliasing of the input buffer
 	nU, badU := 0, ""
@@ -475,4 +479,171 @@ func pbCodecSanity(c *an.Check, pkgs func(rel string) bool) {
 		}
 	}
 	c.Require(badM == "", "SIBLING", "generated codecs encode scalar fields with the conversion they are sized with", nil, "", nM, fmt.Sprintf("%d message types", nM), badM)
+}
+
+// pbTag parses a generated `protobuf:"<wire>,<num>,…"` struct tag.
+func pbTag(tag string) (num int, wire int, oneof bool, ok bool) {
+	v := reflect.StructTag(tag).Get("protobuf")
+	if v == "" {
+		return 0, 0, false, false
+	}
+	parts := strings.Split(v, ",")
+	if len(parts) < 2 {
+		return 0, 0, false, false
+	}
+	n, err := strconv.Atoi(parts[1])
+	if err != nil {
+		return 0, 0, false, false
+	}
+	w := map[string]int{"varint": 0, "zigzag32": 0, "zigzag64": 0, "fixed64": 1, "bytes": 2, "group": 3, "fixed32": 5}
+	wt, known := w[parts[0]]
+	if !known {
+		return 0, 0, false, false
+	}
+	for _, p := range parts[2:] {
+		if p == "oneof" {
+			oneof = true
+		}
+	}
+	return n, wt, oneof, true
+}
+
+// pbTagAgreement: field numbers on the wire agree with the schema tags the generator wrote next to the fields —
+//   - a oneof wrapper's encoder writes exactly the tag byte(s) of its own field (num<<3 | wire type);
+//   - in every decoder, the `case N:` clause stores into the field / constructs the oneof wrapper whose schema number is N.
+//
+// (A clear that travels under the tag of an ack, or is decoded into the ack arm, acknowledges a message nobody received.)
+func pbTagAgreement(c *an.Check, pkgs func(rel string) bool) {
+	p := c.P
+	nEnc, nDec, bad := 0, 0, ""
+	for path, pk := range p.All {
+		if !strings.HasPrefix(path, an.Mod) || !pkgs(strings.TrimPrefix(path, an.Mod+"/")) || pk.TypesInfo == nil || pk.Types == nil {
+			continue
+		}
+		structOf := func(name string) *types.Struct {
+			obj := pk.Types.Scope().Lookup(name)
+			if obj == nil {
+				return nil
+			}
+			st, _ := obj.Type().Underlying().(*types.Struct)
+			return st
+		}
+		fieldTag := func(st *types.Struct, field string) (int, int, bool, bool) {
+			for i := 0; i < st.NumFields(); i++ {
+				if st.Field(i).Name() == field {
+					return pbTag(st.Tag(i))
+				}
+			}
+			return 0, 0, false, false
+		}
+		for _, f := range pk.Syntax {
+			for _, d := range f.Decls {
+				fd, ok := d.(*ast.FuncDecl)
+				if !ok || fd.Recv == nil || fd.Body == nil || len(fd.Recv.List) == 0 {
+					continue
+				}
+				recvT := strings.TrimPrefix(types.ExprString(fd.Recv.List[0].Type), "*")
+				st := structOf(recvT)
+				if st == nil {
+					continue
+				}
+				switch fd.Name.Name {
+				case "MarshalToSizedBufferVT":
+					// oneof wrapper: exactly one tagged field, marked oneof
+					var num, wire, tagged int
+					isOneof := false
+					for i := 0; i < st.NumFields(); i++ {
+						if n, w, o, ok := pbTag(st.Tag(i)); ok {
+							tagged++
+							num, wire, isOneof = n, w, o
+						}
+					}
+					if tagged != 1 || !isOneof || num >= 16 {
+						continue
+					}
+					nEnc++
+					want := int64(num<<3 | wire)
+					found := false
+					last := int64(-1)
+					ast.Inspect(fd.Body, func(nd ast.Node) bool {
+						as, ok := nd.(*ast.AssignStmt)
+						if !ok || len(as.Lhs) != 1 || len(as.Rhs) != 1 {
+							return true
+						}
+						if _, isIdx := as.Lhs[0].(*ast.IndexExpr); !isIdx {
+							return true
+						}
+						tv, ok := pk.TypesInfo.Types[as.Rhs[0]]
+						if !ok || tv.Value == nil {
+							return true
+						}
+						v, exact := constant.Int64Val(tv.Value)
+						if !exact {
+							return true
+						}
+						found = true
+						last = v // the tag is written last (the buffer is filled back to front)
+						return true
+					})
+					if !found {
+						bad = fmt.Sprintf("%s.%s: no tag byte written", path, recvT)
+					} else if last != want {
+						bad = fmt.Sprintf("%s.%s writes tag byte %#x for its field (schema number %d, wire type %d → %#x): the value travels under another field's number", path, recvT, last, num, wire, want)
+					}
+				case "UnmarshalVT":
+					ast.Inspect(fd.Body, func(nd ast.Node) bool {
+						cc, ok := nd.(*ast.CaseClause)
+						if !ok || len(cc.List) != 1 {
+							return true
+						}
+						tv, ok := pk.TypesInfo.Types[cc.List[0]]
+						if !ok || tv.Value == nil || tv.Value.Kind() != constant.Int {
+							return true
+						}
+						caseNum, _ := constant.Int64Val(tv.Value)
+						for _, stmt := range cc.Body {
+							ast.Inspect(stmt, func(x ast.Node) bool {
+								switch e := x.(type) {
+								case *ast.CompositeLit:
+									tn := strings.TrimPrefix(types.ExprString(e.Type), "&")
+									if ws := structOf(tn); ws != nil && ws.NumFields() == 1 {
+										if n, _, o, ok := pbTag(ws.Tag(0)); ok && o {
+											nDec++
+											if int64(n) != caseNum {
+												bad = fmt.Sprintf("%s.%s decodes wire field %d into the oneof arm %s (schema number %d)", path, recvT, caseNum, tn, n)
+											}
+										}
+									}
+								case *ast.AssignStmt:
+									for _, lhs := range e.Lhs {
+										se, ok := lhs.(*ast.SelectorExpr)
+										if !ok {
+											continue
+										}
+										if id, ok := se.X.(*ast.Ident); !ok || len(fd.Recv.List[0].Names) == 0 || id.Name != fd.Recv.List[0].Names[0].Name {
+											continue
+										}
+										if n, _, o, ok := fieldTag(st, se.Sel.Name); ok && !o {
+											nDec++
+											if int64(n) != caseNum {
+												bad = fmt.Sprintf("%s.%s decodes wire field %d into %s (schema number %d)", path, recvT, caseNum, se.Sel.Name, n)
+											}
+										}
+									}
+								}
+								return true
+							})
+						}
+						return false
+					})
+				}
+			}
+		}
+	}
+	c.Require(bad == "" && nDec >= 1, "SIBLING", "generated codecs use each field's own schema number on the wire", nil, "", nEnc+nDec, fmt.Sprintf("%d oneof encoders and %d decoder stores agree with the schema tags", nEnc, nDec), func() string {
+		if bad != "" {
+			return bad
+		}
+		return "no tagged decoder stores found (anchor drift)"
+	}())
 }
